@@ -240,6 +240,13 @@ class Server:
                         continue
                     n = 1 if not self.cfg["multi"] else r.randint(1, len(ready))
                     ops = ready[:n]
+                    if self.cfg["multi"] and k.get("mixed") and r.random() < 0.3 and len(cand) > 1:
+                        # one container for operators of two pipelines: the executor supports it, so an external
+                        # scheduler may do it - a pipeline can then complete in a tick in which no container ends
+                        p2 = r.choice([x for x in cand if x is not p])
+                        ops = ops + [o["id"] for o in p2["operators"] if o["is_assignable_state"] and o["parents_complete"]
+                                     and o["id"] not in taken][:2]
+                        self.probe("mixed_pipeline_container")
                     cpu = r.randint(1, max(1, int(cpu_left)))
                     if k.get("fractional_cpu") and r.random() < 0.4:
                         cpu = r.choice([c for c in (0.5, 1.25, 1.5, 2.75) if c <= cpu_left] or [cpu])
@@ -409,7 +416,8 @@ def gen_scn(r, tier):
     scn["policy_seed"] = r.randint(0, 10 ** 9)
     scn["latency"] = r.choice(["fast", "slow", "wild"])
     scn["policy_knobs"] = {"p_asg": r.choice([0.3, 0.7, 1.0]), "p_sus": r.choice([0, 0.3, 1.0]),
-                           "per_pool": r.choice([1, 2, 4]), "retry": r.random() < 0.6, "fractional_cpu": r.random() < 0.3}
+                           "per_pool": r.choice([1, 2, 4]), "retry": r.random() < 0.6, "fractional_cpu": r.random() < 0.3,
+                           "mixed": r.random() < 0.4}
     return scn
 
 
